@@ -257,4 +257,4 @@ def _r02_6(res, P, cfgname):
                 res.ok("R02.6", cfgname, key, sample=dict(function=f["p"], producer=cp))
     res.floor("R02.6", cfgname, n, 6, "uses of trailing_zeros / trailing_ones results")
 LEVEL = LEVEL + ' (R02.6) the Option results of trailing_zeros / trailing_ones, whose None stands for an unbounded run, are never ordered with Option\'s derived ordering (0 is a multiple of everything).'
-
+TECHNIQUE = TECHNIQUE + "; use-form rule for Option-valued bit counts (never ordered by Option's derived ordering)"
